@@ -28,8 +28,8 @@ RULE = (
 )
 COMPONENTS = COMPONENTS_BASE
 ASSUMPTIONS = ["awaitables log their own entry/exit; items are plain integers tagged per scenario"]
-PROBES = ("any_iter_awaitable_outer", "any_iter_awaitable_items", "any_iter_async_iterator", "await_each_partial",
-          "apply_keywords", "sync_coroutine_function_unchanged", "sync_raises", "sync_callable_object")
+PROBES = ("apply_same_awaitable_twice", "any_iter_awaitable_outer", "any_iter_awaitable_items", "any_iter_async_iterator", "await_each_partial",
+          "apply_keywords", "sync_coroutine_function_unchanged", "sync_raises", "sync_callable_object", "sync_sometimes_awaitable")
 
 
 class Aw:
@@ -40,11 +40,14 @@ class Aw:
 
     def __await__(self):
         self.log.append(("enter", self.name))
+        self.entered = getattr(self, "entered", 0) + 1
         for _ in range(self.n):
             yield from self.sim.suspend(PAUSE, None, "awaitable").__await__()
         self.log.append(("exit", self.name))
         if self.exc is not None:
             raise self.exc
+        if callable(self.value):
+            return self.value(self.entered)
         return self.value
 
 
@@ -124,7 +127,20 @@ async def run_await_each(sc, sim, res, tag):
     log = res["log"]
     values = [(tag, i) for i in range(sc["n"])]
     aws = [make_awaitable(sim, log, ("item", i), sc["susp"][i % 3], values[i], sc["coro"]) for i in range(sc["n"])]
-    source = list(aws) if sc["container"] == 0 else iter(list(aws))
+    pulled = [0]
+
+    class CountingIter:
+        def __init__(self, seq):
+            self.seq = iter(seq)
+
+        def __iter__(self):
+            return self
+
+        def __next__(self):
+            pulled[0] += 1
+            return next(self.seq)
+
+    source = list(aws) if sc["container"] == 0 else CountingIter(list(aws))
     it = L.await_each(source)
     res["type_ok"] = hasattr(it, "__anext__") and hasattr(it, "__aiter__")
     got = []
@@ -139,6 +155,14 @@ async def run_await_each(sc, sim, res, tag):
     res["got"] = got
     res["expected"] = (values + ["stop"])[: sc["steps"]]
     await it.aclose()
+    # closing the adapter early must not touch what the consumer never asked for
+    asked = min(sc["steps"], sc["n"] + 1)
+    if sc["container"] == 1 and pulled[0] > asked:
+        res["overpull"] = "source pulled %d times for %d requests" % (pulled[0], asked)
+    import inspect
+    for i, x in enumerate(aws):
+        if i >= sc["steps"] and inspect.iscoroutine(x) and inspect.getcoroutinestate(x) != "CORO_CREATED":
+            res["overpull"] = "awaitable %d (never requested) was started or closed by the adapter" % i
     for x in aws:
         if hasattr(x, "close"):
             x.close()
@@ -168,7 +192,7 @@ def check_await_each_order(log):
 # --------------------------------------------------------------------------- apply
 def gen_apply(ch):
     return {"kind": "apply", "npos": ch.draw(5), "nkw": ch.draw(4), "susp": [ch.draw(3) for _ in range(3)],
-            "coro": ch.draw(2), "fails": ch.chance(1, 6)}
+            "coro": ch.draw(2), "fails": ch.chance(1, 6), "shared": ch.chance(1, 4)}
 
 
 async def run_apply(sc, sim, res, tag):
@@ -176,9 +200,18 @@ async def run_apply(sc, sim, res, tag):
     log = res["log"]
     pos_vals = [(tag, "p", i) for i in range(sc["npos"])]
     kw_vals = {"k%d" % i: (tag, "k", i) for i in range(sc["nkw"])}
-    pos = [make_awaitable(sim, log, ("pos", i), sc["susp"][i % 3], pos_vals[i], sc["coro"]) for i in range(sc["npos"])]
-    kws = {k: make_awaitable(sim, log, ("kw", k), sc["susp"][j % 3], v, sc["coro"])
-           for j, (k, v) in enumerate(kw_vals.items())}
+    if not (sc["shared"] and sc["npos"] + sc["nkw"] >= 2):
+        pos = [make_awaitable(sim, log, ("pos", i), sc["susp"][i % 3], pos_vals[i], sc["coro"]) for i in range(sc["npos"])]
+        kws = {k: make_awaitable(sim, log, ("kw", k), sc["susp"][j % 3], v, sc["coro"])
+               for j, (k, v) in enumerate(kw_vals.items())}
+    else:
+        # one re-awaitable object passed for every parameter: it is awaited once per parameter, in order
+        shared = Aw(sim, log, ("shared",), sc["susp"][0], lambda n: (tag, "shared", n))
+        pos = [shared] * sc["npos"]
+        kws = {k: shared for k in kw_vals}
+        pos_vals = [(tag, "shared", i + 1) for i in range(sc["npos"])]
+        kw_vals = {k: (tag, "shared", sc["npos"] + j + 1) for j, k in enumerate(kw_vals)}
+        res["shared"] = True
     fault = InjectedFault("apply")
 
     def func(*args, **kwargs):
@@ -197,7 +230,9 @@ async def run_apply(sc, sim, res, tag):
 
 # --------------------------------------------------------------------------- sync
 def gen_sync(ch):
-    return {"kind": "sync", "flavour": ch.draw(6), "fails": ch.chance(1, 3), "susp": ch.draw(3)}
+    # flavour 6: a plain def that returns an awaitable on some calls and a plain value on others
+    return {"kind": "sync", "flavour": ch.draw(7), "fails": ch.chance(1, 3), "susp": ch.draw(3),
+            "pattern": [ch.draw(2) for _ in range(ch.between(2, 4))]}
 
 
 async def run_sync(sc, sim, res, tag):
@@ -228,6 +263,32 @@ async def run_sync(sc, sim, res, tag):
         def __call__(self, x, y=1):
             return plain(x, y)
 
+    if fl == 6:
+        calls = [0]
+
+        def sometimes(x, y=1):
+            k = calls[0]
+            calls[0] += 1
+            if sc["pattern"][k % len(sc["pattern"])]:
+                return coro_fn(x, y)
+            return plain(x, y)
+
+        wrapped = L.sync(sometimes)
+        res["same"] = wrapped is sometimes
+        res["expect_same"] = False
+        got = []
+        for k in range(len(sc["pattern"])):
+            aw = wrapped((tag, k))
+            res["type_ok"] = hasattr(aw, "__await__")
+            try:
+                got.append(("ok", await aw))
+            except InjectedFault as err:
+                got.append(("raised", err is fault))
+            except TypeError as err:
+                got.append(("TypeError", str(err)[:40]))
+        res["got"] = got
+        res["expected"] = [("raised", True) if sc["fails"] else ("ok", ("r", (tag, k), 1)) for k in range(len(sc["pattern"]))]
+        return
     f = (plain, coro_fn, functools.partial(coro_fn, y=2), Obj(), ObjPlain(), functools.partial(plain, y=2))[fl]
     wrapped = L.sync(f)
     res["same"] = wrapped is f
@@ -283,7 +344,7 @@ def execute(st, ctx):
         if res["got"] != res["expected"]:
             out.violate("C19.result_differs", sig, describe())
         if kind == "await_each":
-            why = check_await_each_order(res["log"])
+            why = check_await_each_order(res["log"]) or res.get("overpull")
             if why:
                 out.violate("C19.await_each_not_lazy_or_not_sequential", sig, dict(describe(), why=why))
             if sc["steps"] <= sc["n"] and sc["n"]:
@@ -307,6 +368,8 @@ def execute(st, ctx):
         elif kind == "apply":
             if sc["nkw"]:
                 out.probes["apply_keywords"] = 1
+            if res.get("shared"):
+                out.probes["apply_same_awaitable_twice"] = 1
             if sc["npos"] + sc["nkw"]:
                 nontrivial = True
         else:
@@ -320,6 +383,8 @@ def execute(st, ctx):
                 out.fault_free = False
             if sc["flavour"] in (3, 4):
                 out.probes["sync_callable_object"] = 1
+            if sc["flavour"] == 6 and len(set(sc["pattern"])) == 2:
+                out.probes["sync_sometimes_awaitable"] = 1
             nontrivial = True
     out.nontrivial = nontrivial
     out.shape = tuple(tuple(sorted((k, repr(v)) for k, v in sc.items())) for sc, _ in tenants)
